@@ -1,6 +1,6 @@
 import BM.Props.C04ugc
 import BM.Props.SrcPin.C04
-import BM.Props.OracleModel
+import BM.Props.OracleModelC04
 /- Top module of property C04: its theorems (BM.Props.C04ugc) and the statement of which units of /repo's
    source its model and proofs were written against (BM/Props/SrcPin/C04.lean, re-checked against the
    regenerated fingerprints on every run).  Only `./check C04` builds this module, so a change to a
